@@ -79,8 +79,8 @@ def scn_proto(ctx):
         rec["out_after"] = outcome(f)
         obs.append(rec)
 
-    opsA = [OPS[ctx.choice(len(OPS), "opA")]]
-    opsB = [("cancel", "cb")[ctx.choice(2, "opB")]]
+    opsA = [OPS[ctx.choice(len(OPS), "opA")]] if not p.get("fixA") else list(p["fixA"])
+    opsB = [("cancel", "cb")[ctx.choice(2, "opB")]] if not p.get("fixB") else list(p["fixB"])
     if p.get("ops", 2) >= 3:
         opsB.append(("cancel", "cb")[ctx.choice(2, "opB2")])
 
@@ -166,4 +166,10 @@ def plan(tier, seed):
             items.append(dict(scenario="proto", params=prm, bounds=dict(P=0 if n in ("retry", "poll", "throttle", "timeout") else 1)))
         else:
             items.append(dict(scenario="proto", params=dict(prm, ops=3), bounds=dict(P=1 if n in ("retry", "poll", "throttle", "timeout") else 2)))
+    # focused races add_done_callback / result vs cancel at a deeper bound, with scheduling points after releases
+    for n in ("map", "f_map", "f_zip", "retry", "poll", "throttle"):
+        heavy = n in ("retry", "poll", "throttle")
+        for fa in (["cb"], ["wait"]):
+            items.append(dict(scenario="proto", params=dict(entry=n, fixA=fa, fixB=["cancel"], input_cancel=False),
+                              bounds=dict(P=(1 if heavy else 2) if tier == "quick" else (2 if heavy else 3), post_release=True)))
     return items
